@@ -157,12 +157,16 @@ impl<Data: GarnishData> BuildNode<Data> {
 
 pub fn build<Data: GarnishData>(parse_root: usize, parse_tree: Vec<ParseNode>, data: &mut Data) -> Result<BuildData<Data>, CompilerError<Data::Error>> {
     if parse_tree.is_empty() {
+        // the empty program still gets its own entry, so that the reported jump index is valid
+        // and does not name the entry of a program built into the data earlier
+        let jump_index = data.get_jump_table_len();
+        data.push_to_jump_table(data.get_instruction_len())?;
         data.push_instruction(Instruction::EndExpression, None)?;
         return Ok(BuildData {
             parse_root,
             parse_tree,
             instruction_metadata: vec![InstructionMetadata::new(None)],
-            jump_index: Data::Size::zero(),
+            jump_index,
         });
     }
 
